@@ -416,6 +416,43 @@ func (x *Exec) finish(fd *ast.FuncDecl) {
 			}
 		}
 	}
+	// use-lemma: instantiate proved lemmas at the exit state (their requires are obligations)
+	for _, ul := range ct.UseLemmas {
+		call, ok := ul.E.(*SCall)
+		if !ok {
+			panic(specFailure{"use-lemma expects name(args)"})
+		}
+		lm := c.eng.specs.lemmas[call.Fn]
+		if lm == nil {
+			panic(specFailure{"use-lemma: unknown lemma " + call.Fn})
+		}
+		if len(call.Args) != len(lm.Params) {
+			panic(specFailure{fmt.Sprintf("use-lemma %s: %d arguments expected", call.Fn, len(lm.Params))})
+		}
+		bound := map[string]Sc{}
+		for i, pa := range lm.Params {
+			av := env.eval(call.Args[i])
+			switch v := av.(type) {
+			case Sc:
+				bound[pa[0]] = Sc{v.T, specSort(pa[1])}
+			case Sl, Ar:
+				bound[pa[0]] = env.rawArr(v).(Sc)
+			default:
+				panic(specFailure{fmt.Sprintf("use-lemma %s: unsupported argument %d", call.Fn, i)})
+			}
+		}
+		lenv := &SpecEnv{x: x, st: final, names: map[string]Val{}, bound: bound}
+		for k, rq := range lm.Requires {
+			g := lenv.evalBool(rq.E)
+			for pi, part := range splitConj(g) {
+				c.obligeAssume("lemma-pre:"+call.Fn, fmt.Sprintf("#%d.%d", k+1, pi+1), final.pc, part, fd.Body.Rbrace, "hypothesis of lemma "+call.Fn+": "+rq.Text)
+			}
+		}
+		for _, en := range lm.Ensures {
+			c.assume(final.pc, lenv.evalBool(en.E))
+		}
+		c.inlined["lemma:"+call.Fn] = true
+	}
 	if ct.Pure {
 		for obj, v := range x.entry.vars {
 			pv, ok := obj.(*types.Var)
